@@ -91,9 +91,12 @@ def check_case(ref, W, fs, s):
         out.append(dict(signature=sig, observed=obs, expected=exp))
 
     try:
-        typed = [(u.type, u.string) for u in unfold_search(s)]
+        unf = unfold_search(s)
     except SpilException:
         return out, "spilexc", 0
+    typed = [(u.type, u.string) for u in unf if u.type and "?" not in u.string]
+    if len(typed) != len(unf):
+        bad("unfolding-contains-untyped-or-unapplied-query-sid", [u.uri for u in unf if not u.type or "?" in u.string][:4], "typed searches only (C07)")
     for fname, f in fs.items():
         try:
             Rl = find(f, s)
